@@ -31,6 +31,15 @@ def main():
         elif prop in ("C14", "C15"):
             from . import c_ms_store
             rc = c_ms_store.run(prop, a.tier, seed)
+        elif prop in ("C11", "C12"):
+            from . import c_factory
+            rc = c_factory.run(prop, a.tier, seed)
+        elif prop in ("C06", "C19"):
+            from . import c_defs
+            rc = c_defs.run(prop, a.tier, seed)
+        elif prop == "C13":
+            from . import c_proc
+            rc = c_proc.run(prop, a.tier, seed)
         else:
             print("MACHINERY-FAILURE unknown property %s" % prop)
             rc = 2
